@@ -2,6 +2,7 @@
    [status_short]) and the Merkle checksum is injective on tracked content.
    Statements are the Props of Proofs/CacheDefs.v. *)
 From Coq Require Import NArith List Bool Sorted Lia.
+From Coq Require String.
 From DudV Require Import Base.Bytes Base.JsonStr Base.Json Model.Fs Model.Cache Proofs.CacheDefs.
 Import ListNotations.
 Local Open Scope N_scope.
@@ -833,7 +834,7 @@ Section Status.
   Qed.
 
   Lemma plain_dir_inv es :
-    plain (Dir es) -> ksorted es /\ forall e, In e es -> good_name H (fst e) /\ plain (snd e).
+    plain (Dir es) -> ksorted es /\ forall e, In e es -> good_name (fst e) /\ plain (snd e).
   Proof.
     intros Hp. inversion Hp as [|es' Hs Hf]; subst. split; [exact Hs|].
     rewrite Forall_forall in Hf. exact Hf.
@@ -886,10 +887,11 @@ Section Status.
       { apply plain_dir_inv in Hp1 as [_ Hall1]. apply plain_dir_inv in Hp2 as [_ Hall2].
         rewrite Forall_forall in IH.
         apply (Forall2_eq_In _ _ _ (Forall2_same_r _ _ _ _ (merkle_go_spec _ _ _ Hgo1) (merkle_go_spec _ _ _ Hgo2))).
-        intros [k1 ch1] [k2 ch2] Hin1 Hin2 (kv & (Hk1 & dd1 & Hmk1 & Hkv1) & (Hk2 & dd2 & Hmk2 & Hkv2)).
-        cbn [fst snd] in *. apply filter_In in Hin1 as [Hin1 _]. apply filter_In in Hin2 as [Hin2 _].
-        assert (k1 = k2) by congruence. subst k2.
-        rewrite Hkv1 in Hkv2. injection Hkv2 as Hdd Hisd. subst dd2.
+        intros [k1 ch1] [k2 ch2] Hin1 Hin2 ([kk va] & (Hk1 & dd1 & Hmk1 & Hkv1) & (Hk2 & dd2 & Hmk2 & Hkv2)).
+        cbn [fst snd] in Hk1, Hk2, Hmk1, Hmk2, Hkv1, Hkv2.
+        apply filter_In in Hin1 as [Hin1 _]. apply filter_In in Hin2 as [Hin2 _].
+        subst k1 k2. rewrite Hkv1 in Hkv2. injection Hkv2 as Hdd Hisd. subst dd2.
+        rename kk into k1.
         destruct (Hall1 _ Hin1) as [(Hu & Hv & Hb) Hpl1]. destruct (Hall2 _ Hin2) as [_ Hpl2].
         cbn [fst snd] in *.
         pose proof (IH _ Hin1 k1 false ch2 dd1 Hpl1 Hpl2 Hisd (conj Hu Hb) Hmk1 Hmk2) as Heq.
@@ -901,6 +903,164 @@ Section Status.
   Qed.
 End Status.
 
+
+(* ================= cache construction facts ================= *)
+Lemma alookup_ins_sorted {A} d k (v : A) l :
+  alookup d (ins_sorted k v l) = if beqb d k then Some v else alookup d l.
+Proof.
+  induction l as [|[k' v'] l IH]; cbn [ins_sorted alookup].
+  - reflexivity.
+  - destruct (beqb k k') eqn:Ekk.
+    + apply beqb_eq in Ekk. subst k'. cbn [alookup]. destruct (beqb d k); reflexivity.
+    + destruct (bltb k k'); cbn [alookup].
+      * reflexivity.
+      * rewrite IH. destruct (beqb d k') eqn:Edk'; [|reflexivity].
+        apply beqb_eq in Edk'. subst k'. destruct (beqb d k) eqn:Edk; [|reflexivity].
+        apply beqb_eq in Edk. subst k. rewrite beqb_refl in Ekk. discriminate.
+Qed.
+
+Lemma cget_cput c d b d' :
+  cget (cput c d b) d' = if beqb d' d then Some (mkObj b cache_perms) else cget c d'.
+Proof. unfold cget, cput. apply alookup_ins_sorted. Qed.
+
+Lemma cache_ok_nil H : cache_ok H [].
+Proof. intros d o Hg. discriminate. Qed.
+
+Lemma cache_ok_cput H c b : cache_ok H c -> cache_ok H (cput c (H b) b).
+Proof.
+  intros Hc d o Hg. rewrite cget_cput in Hg. destruct (beqb d (H b)) eqn:E.
+  - apply beqb_eq in E. injection Hg as <-. split; [exact E|reflexivity].
+  - exact (Hc d o Hg).
+Qed.
+
+Lemma man_plain_nil : man_plain [].
+Proof. intros d o m Hg. discriminate. Qed.
+
+Lemma man_plain_cput c d b :
+  man_plain c ->
+  (forall m, dec_manifest b = Some m -> Forall (fun kv => plain_child (snd kv)) (m_contents m)) ->
+  man_plain (cput c d b).
+Proof.
+  intros Hc Hb d' o m Hg Hm. rewrite cget_cput in Hg. destruct (beqb d' d).
+  - injection Hg as <-. exact (Hb m Hm).
+  - exact (Hc d' o m Hg Hm).
+Qed.
+
+(* ================= counterexamples to [stmt_status_iff] as stated in CacheDefs ================= *)
+Module Cex.
+  Definition str (x : String.string) : bytes := of_string x.
+  Arguments str x%string_scope.
+
+  (* --- 1. without [H_has]: the identity hash, a child whose checksum "ab" is a cache key --- *)
+  Definition Hid (b : bytes) : bytes := b.
+  Definition ab := str "ab".
+  Definition m1 := enc_manifest (mkMan (str "d") [(str "f", mkArt ab (str "f") false false false)]).
+  Definition c1 := cput (cput [] (Hid ab) ab) (Hid m1) m1.
+  Definition a1 := mkArt m1 (str "d") true false false.
+  Definition n1 := Dir [(str "f", File ab)].
+  Definition s1 := match status_node Hid 3 a1 (Some n1) c1 with Ok s => s | Err => St a1 SAbsent false false false [] end.
+
+  Lemma Hid_inj : H_inj Hid.
+  Proof. intros a b Hab. exact Hab. Qed.
+
+  Theorem status_iff_needs_H_has : ~ stmt_status_iff Hid.
+  Proof.
+    intros Hst.
+    assert (Hs : status_node Hid 3 a1 (Some n1) c1 = Ok s1) by (vm_compute; reflexivity).
+    assert (Hc : cache_ok Hid c1) by (unfold c1; apply cache_ok_cput, cache_ok_cput, cache_ok_nil).
+    assert (Hp : man_plain c1).
+    { unfold c1. apply man_plain_cput; [apply man_plain_cput; [apply man_plain_nil|]|].
+      - intros m Hm. vm_compute in Hm. discriminate.
+      - intros m Hm. vm_compute in Hm. injection Hm as <-. repeat constructor. }
+    assert (Hn : sorted_tree n1).
+    { cbn [sorted_tree n1]. split; [|split; exact I]. repeat constructor. }
+    destruct (Hst Hid_inj 3 a1 n1 c1 s1 Hc Hp Hn eq_refl) as [_ Hback]; [vm_compute; reflexivity|exact Hs|].
+    assert (Hf : st_cm s1 = false) by (vm_compute; reflexivity).
+    rewrite Hback in Hf; [discriminate|].
+    exists (Dir [(str "f", File ab)]). split; [vm_compute; reflexivity|]. split; [vm_compute; reflexivity|].
+    reflexivity.
+  Qed.
+
+  (* --- 2. with [H_inj], [H_has], [H_text] but without [norec_flat]: a non-recursive artifact whose
+         recorded manifest lists a sub-directory; everything matches, status says up to date, but
+         the tracked view of the workspace drops the sub-directory --- *)
+  Definition Ht (b : bytes) : bytes := [120; 120; 120] ++ b.
+  Lemma Ht_inj : H_inj Ht.
+  Proof. intros a b Hab. unfold Ht in Hab. exact (app_inv_head _ _ _ Hab). Qed.
+  Lemma Ht_has : H_has Ht.
+  Proof. intros b. unfold has_cs, Ht. cbn [app length]. apply N.leb_le. lia. Qed.
+
+  Definition fb := str "hello".
+  Definition msub := enc_manifest (mkMan (str "sub") [(str "g", mkArt (Ht fb) (str "g") false false false)]).
+  Definition m2 := enc_manifest (mkMan (str "d")
+     [(str "f", mkArt (Ht fb) (str "f") false false false);
+      (str "sub", mkArt (Ht msub) (str "sub") true false false)]).
+  Definition c2 := cput (cput (cput [] (Ht fb) fb) (Ht msub) msub) (Ht m2) m2.
+  Definition a2 := mkArt (Ht m2) (str "d") true true false.     (* disable-recursion = true *)
+  Definition n2 := Dir [(str "f", File fb); (str "sub", Dir [(str "g", LinkC (Ht fb))])].
+  Definition s2 := match status_node Ht 3 a2 (Some n2) c2 with Ok s => s | Err => St a2 SAbsent false false false [] end.
+
+  Theorem status_iff_needs_norec_flat : ~ stmt_status_iff Ht.
+  Proof.
+    intros Hst.
+    assert (Hs : status_node Ht 3 a2 (Some n2) c2 = Ok s2) by (vm_compute; reflexivity).
+    assert (Hc : cache_ok Ht c2) by (unfold c2; apply cache_ok_cput, cache_ok_cput, cache_ok_cput, cache_ok_nil).
+    assert (Hp : man_plain c2).
+    { unfold c2. apply man_plain_cput; [apply man_plain_cput; [apply man_plain_cput; [apply man_plain_nil|]|]|].
+      - intros m Hm. vm_compute in Hm. discriminate.
+      - intros m Hm. vm_compute in Hm. injection Hm as <-. repeat constructor.
+      - intros m Hm. vm_compute in Hm. injection Hm as <-. repeat constructor. }
+    assert (Hn : sorted_tree n2).
+    { cbn [sorted_tree n2]. repeat split; repeat constructor. }
+    destruct (Hst Ht_inj 3 a2 n2 c2 s2 Hc Hp Hn eq_refl) as [Hfwd _]; [vm_compute; reflexivity|exact Hs|].
+    destruct Hfwd as (t & Hexp & Htv & _); [vm_compute; reflexivity|].
+    vm_compute in Hexp. vm_compute in Htv. rewrite <- Htv in Hexp. discriminate.
+  Qed.
+
+  (* --- non-vacuity: a committed 2-level tree, unchanged and with one byte changed --- *)
+  Definition tree := Dir [(str "a", File (str "alpha")); (str "sub", Dir [(str "b", File (str "beta"))])].
+  Definition art0 := mkArt [] (str "data") true false false.
+  Definition committed (st : strategy) :=
+    match commit_node Ht art0 tree [] st with
+    | Ok r => r
+    | Err => (Other, [], art0)
+    end.
+  Definition wnode st := fst (fst (committed st)).
+  Definition wcache st := snd (fst (committed st)).
+  Definition wart st := snd (committed st).
+
+  Fixpoint all_cmb (s : stree) : bool :=
+    match s with
+    | St _ _ _ _ cm kids => cm && forallb (fun kv => all_cmb (snd kv)) kids
+    end.
+
+  Example commit_succeeds : exists r, commit_node Ht art0 tree [] Link = Ok r /\
+                                      exists r', commit_node Ht art0 tree [] Copy = Ok r'.
+  Proof. eexists. split; [vm_compute; reflexivity|]. eexists. vm_compute. reflexivity. Qed.
+
+  Example status_unchanged_link :
+    exists s, status_node Ht 3 (wart Link) (Some (wnode Link)) (wcache Link) = Ok s /\ all_cm s.
+  Proof. eexists. split; [vm_compute; reflexivity|]. cbn. tauto. Qed.
+
+  Example status_unchanged_copy :
+    exists s, status_node Ht 3 (wart Copy) (Some (wnode Copy)) (wcache Copy) = Ok s /\ all_cm s.
+  Proof. eexists. split; [vm_compute; reflexivity|]. cbn. tauto. Qed.
+
+  (* sub/b: "beta" -> "beto" *)
+  Definition changed := Dir [(str "a", File (str "alpha")); (str "sub", Dir [(str "b", File (str "beto"))])].
+  Example status_changed :
+    exists s, status_node Ht 3 (wart Copy) (Some changed) (wcache Copy) = Ok s /\ st_cm s = false /\
+              status_short Ht 3 (wart Copy) (Some changed) (wcache Copy) = Ok false.
+  Proof. eexists. split; [vm_compute; reflexivity|]. split; vm_compute; reflexivity. Qed.
+
+  (* the same through a link that now points at another object *)
+  Example status_changed_link :
+    exists s, status_node Ht 3 (wart Link)
+                (Some (Dir [(str "a", LinkC (Ht (str "alpha"))); (str "sub", Dir [(str "b", LinkC (Ht (str "alpha")))])]))
+                (wcache Link) = Ok s /\ st_cm s = false.
+  Proof. eexists. split; vm_compute; reflexivity. Qed.
+End Cex.
+
 Print Assumptions status_skip.
 Print Assumptions short_agrees.
 Print Assumptions status_file_iff.
@@ -910,3 +1070,5 @@ Print Assumptions status_iff_strong.
 Print Assumptions status_iff_fixed.
 Print Assumptions status_iff_recursive.
 Print Assumptions merkle_inj.
+Print Assumptions Cex.status_iff_needs_H_has.
+Print Assumptions Cex.status_iff_needs_norec_flat.
